@@ -86,6 +86,9 @@ func Run(c *core.Ctx) {
 	// R8: the element route decodes ziplist/zipmap payloads with pkg/rdb's copies of the
 	// compact-encoding decoders; they must agree with the decoder's copies
 	arith.CheckSiblings(c, "R8.siblings")
+	// the integer arms of the ziplist entry decoder, decided directly (width, byte
+	// order, sign extension): the quicklist, big-key and fallback routes push what it returns
+	arith.ZiplistInts(c, "R8.ziplist", c.Func("pkg/rdb", "rdbReader", "ReadZiplistEntry"))
 	// R9: what the restore routes consume from the parser (ExpireAt incl. the seconds*1000
 	// scaling, DB, RealMemberCount / NeedReadLen of chunked hashes) is bound as C01 requires
 	c01.EntryRules(c)
